@@ -307,6 +307,17 @@ func (ce *concEnv) explain(obs []outcome, fin []outcome, res vlib.SchedResult, c
 }
 
 // runSchedule executes one schedule of the scenario and checks it.
+// scheduleObs is what the concurrent phase of the last schedule did: per-request outcomes
+// and the movement of the witness's counters during it (used by C20's race part).
+type scheduleObs struct {
+	obs      []outcome
+	ids      []string
+	reqs     []ConcReq
+	counters map[string]int
+}
+
+var lastSchedule *scheduleObs
+
 func runSchedule(c *ConcCase, choices []int, cache *refCache) (vlib.SchedResult, []vlib.SchedStep, error) {
 	ce := newConcEnv(c)
 	w, ip, closer, err := ce.newWitness(c.Storage)
@@ -323,7 +334,9 @@ func runSchedule(c *ConcCase, choices []int, cache *refCache) (vlib.SchedResult,
 		i := i
 		fns[i] = func() { obs[i] = ce.do(w, c.Reqs[i]) }
 	}
+	countersBefore := vlib.Metrics.Snapshot("witness_update")
 	res := s.Run(fns, choices)
+	lastSchedule = &scheduleObs{obs: obs, ids: ce.env.LogIDs, reqs: c.Reqs, counters: vlib.Diff(countersBefore, vlib.Metrics.Snapshot("witness_update"))}
 	steps := s.Steps
 	s.Detach()
 	if res.Deadlock != "" {
